@@ -16,53 +16,186 @@ Proof. rewrite <- mem_In. destruct (mem i l); split; congruence. Qed.
 
 Lemma own_cons t l : own (t :: l) = push t (own l). Proof. reflexivity. Qed.
 
-Section Proofs.
+(** ---- facts that hold for generators and coroutines alike ---- *)
+Section Common.
   Variable assign : nat -> outcome.
   Variable canc : nat -> cbeh.
-  Notation drive := (drive assign canc).
-  Notation fire := (fire assign canc).
-  Notation cancel := (cancel assign canc).
-  Notation step := (step assign canc).
+  Variable coro : bool.
+  Notation drive := (drive assign canc coro).
+  Notation step := (step assign canc coro).
 
-  (** ---- forward invariants: a cancelled Deferred has fired; a suspended driver waits on an unfired one ---- *)
+  (** a cancelled / consumed Deferred has fired; a suspended driver waits on an unfired one *)
   Definition WF (p : status * world) : Prop :=
     (forall d, In d (cancelled (snd p)) -> In d (fired (snd p))) /\
+    (forall d, In d (consumed (snd p)) -> In d (fired (snd p))) /\
     match fst p with Suspended d _ => ~ In d (fired (snd p)) | Finished _ => True end.
+
+  Lemma after_read_world d w :
+    fired (after_read coro d w) = fired w /\ cancelled (after_read coro d w) = cancelled w /\
+    seen (after_read coro d w) = seen w /\
+    (forall x, In x (consumed (after_read coro d w)) -> In x (consumed w) \/ x = d) /\
+    (stale w = true -> stale (after_read coro d w) = true).
+  Proof.
+    unfold after_read. destruct coro; cbn.
+    - repeat split; auto. intros H. rewrite H. reflexivity.
+    - repeat split; auto. intros x [<-|H]; auto.
+  Qed.
 
   Lemma drive_world g : forall w,
     fired (snd (drive g w)) = fired w /\ cancelled (snd (drive g w)) = cancelled w /\
-    match fst (drive g w) with Suspended d _ => ~ In d (fired w) | Finished _ => True end.
+    match fst (drive g w) with Suspended d _ => ~ In d (fired w) | Finished _ => True end /\
+    (forall x, In x (consumed (snd (drive g w))) -> In x (consumed w) \/ In x (fired w)) /\
+    (stale w = true -> stale (snd (drive g w)) = true).
   Proof.
     induction g as [v|e|d k IH|v k IH|t g IHg|g IHg k IH|lvl g IHg]; intros w; cbn [Model.drive].
-    - cbn. auto.
-    - cbn. auto.
-    - destruct (mem d (fired w)) eqn:E; [apply (IH _ (consume d w))|]. cbn. apply mem_false in E. auto.
+    - cbn. repeat split; auto.
+    - cbn. repeat split; auto.
+    - destruct (mem d (fired w)) eqn:E.
+      + destruct (after_read_world d w) as (A1 & A2 & _ & A4 & A5).
+        destruct (IH (current assign canc w d) (after_read coro d w)) as (B1 & B2 & B3 & B4 & B5).
+        rewrite A1, A2 in *. repeat split; auto.
+        * intros x Hx. destruct (B4 x Hx) as [H|H]; [|auto]. destruct (A4 x H) as [H'| ->]; [auto|].
+          right. apply mem_In. exact E.
+      + cbn. apply mem_false in E. repeat split; auto.
     - apply IH.
     - apply (IHg (say t w)).
-    - destruct (IHg w) as (A1 & A2 & A3). destruct (Model.drive assign canc g w) as [st w1]. cbn [fst snd] in *.
-      destruct st as [r|d k'].
-      + destruct (IH r w1) as (B1 & B2 & B3). rewrite B1, B2, A1, A2. repeat split; try reflexivity.
-        destruct (fst (Model.drive assign canc (k r) w1)); [exact I|]. rewrite <- A1. exact B3.
-      + cbn. auto.
+    - destruct (IHg w) as (A1 & A2 & A3 & A4 & A5). destruct (Model.drive assign canc coro g w) as [st w1].
+      cbn [fst snd] in *. destruct st as [r|d k'].
+      + destruct (IH r w1) as (B1 & B2 & B3 & B4 & B5). rewrite B1, B2, A1, A2. repeat split; auto.
+        * destruct (fst (Model.drive assign canc coro (k r) w1)); [exact I|]. rewrite <- A1. exact B3.
+        * intros x Hx. destruct (B4 x Hx) as [H|H]; [apply A4, H | right; rewrite <- A1; exact H].
+      + cbn. repeat split; auto.
     - apply (IHg (say (CancelNow lvl) w)).
   Qed.
 
-  Lemma drive_WF g w : (forall d, In d (cancelled w) -> In d (fired w)) -> WF (drive g w).
-  Proof. intros H. destruct (drive_world g w) as (E1 & E2 & E3). unfold WF. rewrite E1, E2. auto. Qed.
+  Lemma drive_WF g w :
+    (forall d, In d (cancelled w) -> In d (fired w)) -> (forall d, In d (consumed w) -> In d (fired w)) ->
+    WF (drive g w).
+  Proof.
+    intros H1 H2. destruct (drive_world g w) as (E1 & E2 & E3 & E4 & _). unfold WF. rewrite E1, E2.
+    repeat split; auto. intros d Hd. destruct (E4 d Hd); auto.
+  Qed.
+
+  Lemma resume_world d k w1 :
+    fired (snd (resume assign canc coro d k w1)) = fired w1 /\
+    cancelled (snd (resume assign canc coro d k w1)) = cancelled w1 /\
+    match fst (resume assign canc coro d k w1) with Suspended x _ => ~ In x (fired w1) | Finished _ => True end /\
+    (forall x, In x (consumed (snd (resume assign canc coro d k w1))) -> In x (consumed w1) \/ In x (fired w1) \/ x = d).
+  Proof.
+    unfold resume, settle. destruct coro.
+    - destruct (drive_world (k (current assign canc w1 d)) w1) as (E1 & E2 & E3 & E4 & _).
+      cbn [fst snd consume fired cancelled consumed]. repeat split; auto.
+      intros x [<-|Hx]; [auto|]. destruct (E4 x Hx); auto.
+    - destruct (drive_world (k (current assign canc w1 d)) (consume assign canc coro d w1)) as (E1 & E2 & E3 & E4 & _).
+      cbn [consume fired cancelled consumed] in *. repeat split; auto.
+      intros x Hx. destruct (E4 x Hx) as [[<-|H]|H]; auto.
+  Qed.
+
+  Lemma resume_WF d k w1 :
+    (forall x, In x (cancelled w1) -> In x (fired w1)) -> (forall x, In x (consumed w1) -> In x (fired w1)) ->
+    In d (fired w1) -> WF (resume assign canc coro d k w1).
+  Proof.
+    intros H1 H2 Hd. destruct (resume_world d k w1) as (E1 & E2 & E3 & E4). unfold WF. rewrite E1, E2.
+    repeat split; auto. intros x Hx. destruct (E4 x Hx) as [H|[H| ->]]; auto.
+  Qed.
 
   Lemma step_WF p o : WF p -> WF (step p o).
   Proof.
-    destruct p as [st w]. intros [H1 H2]. cbn [fst snd] in *. destruct o as [d| |d]; cbn [Model.step].
-    - unfold Model.fire. destruct (mem d (fired w)) eqn:Ef; [split; assumption|].
+    destruct p as [st w]. intros (H1 & H2 & H3). cbn [fst snd] in *. destruct o as [d| |d]; cbn [Model.step].
+    - unfold Model.fire. destruct (mem d (fired w)) eqn:Ef; [repeat split; assumption|].
       destruct st as [r|d' k].
-      + split; cbn; auto.
+      + repeat split; cbn; auto.
       + destruct (Nat.eqb_spec d d') as [->|Hne].
-        * apply drive_WF. cbn. auto.
-        * split; cbn; [auto|]. intros [H|H]; [congruence | contradiction].
-    - unfold Model.cancel. destruct st as [r|d k]; [split; assumption|].
-      destruct (mem d (held w)); [split; assumption|].
-      apply drive_WF. cbn. intros x [<-|Hx]; auto.
-    - unfold Model.hold. destruct (mem d (fired w)); split; assumption.
+        * apply resume_WF; cbn; auto.
+        * repeat split; cbn; auto. intros [H|H]; [congruence | contradiction].
+    - unfold Model.cancel. destruct st as [r|d k]; [repeat split; assumption|].
+      destruct (mem d (held w)); [repeat split; assumption|].
+      apply resume_WF; cbn; auto. intros x [<-|Hx]; auto.
+    - unfold Model.hold. destruct (mem d (fired w)); repeat split; assumption.
+  Qed.
+
+  Lemma start_WF pre hold0 g : WF (start assign canc coro pre hold0 g).
+  Proof. unfold start. apply drive_WF; intros d []. Qed.
+
+  Lemma run_WF pre hold0 g sched : WF (run assign canc coro pre hold0 g sched).
+  Proof.
+    unfold run. pose proof (start_WF pre hold0 g) as H. revert H.
+    generalize (start assign canc coro pre hold0 g) as p. induction sched as [|o r IH]; intros p H; [exact H|].
+    cbn [fold_left]. apply IH, step_WF, H.
+  Qed.
+
+  (** everything in the schedule that fires has fired *)
+  Lemma step_fired p o : forall x, In x (fired (snd p)) \/ o = SFire x -> In x (fired (snd (step p o))).
+  Proof.
+    destruct p as [st w]. intros x Hx. destruct o as [d| |d]; cbn [Model.step snd].
+    - unfold Model.fire. destruct (mem d (fired w)) eqn:E.
+      + destruct Hx as [Hx|[= ->]]; [exact Hx | apply mem_In; exact E].
+      + assert (H1 : In x (d :: fired w)) by (destruct Hx as [Hx|[= ->]]; [right; exact Hx | left; reflexivity]).
+        destruct st as [r|d' k]; [exact H1|]. destruct (Nat.eqb d d'); [|exact H1].
+        match goal with |- context [resume assign canc coro ?a ?b ?c] => destruct (resume_world a b c) as (E1 & _) end.
+        rewrite E1. exact H1.
+    - destruct Hx as [Hx|Hx]; [|discriminate]. unfold Model.cancel. destruct st as [r|d k]; [exact Hx|].
+      destruct (mem d (held w)); [exact Hx|].
+      match goal with |- context [resume assign canc coro ?a ?b ?c] => destruct (resume_world a b c) as (E1 & _) end.
+      rewrite E1. right. exact Hx.
+    - destruct Hx as [Hx|Hx]; [|discriminate]. unfold Model.hold. destruct (mem d (fired w)); exact Hx.
+  Qed.
+
+  Lemma run_fired pre hold0 g sched :
+    forall x, In x pre \/ In (SFire x) sched -> In x (fired (snd (run assign canc coro pre hold0 g sched))).
+  Proof.
+    unfold run.
+    assert (H : forall x, In x pre -> In x (fired (snd (start assign canc coro pre hold0 g)))).
+    { intros x Hx. unfold start. destruct (drive_world g (mkw pre [] [] [] hold0 false)) as (E1 & _). rewrite E1. exact Hx. }
+    revert H. generalize (start assign canc coro pre hold0 g) as p. revert pre.
+    induction sched as [|o r IH]; intros pre p Hp x Hx.
+    - destruct Hx as [Hx|[]]. apply Hp, Hx.
+    - cbn [fold_left]. apply (IH (match o with SFire d => d :: pre | _ => pre end)).
+      + intros y Hy. apply step_fired.
+        destruct o as [d| |d]; [destruct Hy as [<-|Hy]; [right; reflexivity | left; apply Hp, Hy] | left; apply Hp, Hy | left; apply Hp, Hy].
+      + destruct Hx as [Hx|[Ho|Hx]].
+        * left. destruct o; [right| |]; exact Hx.
+        * subst o. left. left. reflexivity.
+        * right. exact Hx.
+  Qed.
+
+  (** once finished, nothing changes the outcome or what the function observed *)
+  Lemma step_finished o r w :
+    fst (step (Finished r, w) o) = Finished r /\
+    own (seen (snd (step (Finished r, w) o))) = own (seen w) /\
+    cancelled (snd (step (Finished r, w) o)) = cancelled w /\
+    consumed (snd (step (Finished r, w) o)) = consumed w.
+  Proof. destruct o as [d| |d]; cbn; [destruct (mem d (fired w))| |destruct (mem d (fired w))]; repeat split; reflexivity. Qed.
+
+  (** cancelling while suspended on d cancels exactly d (and resumes the function with d's outcome) *)
+  Lemma cancel_exactly d k w : mem d (held w) = false ->
+    cancelled (snd (cancel assign canc coro (Suspended d k, w))) = d :: cancelled w /\
+    cancel assign canc coro (Suspended d k, w) =
+      resume assign canc coro d k (mkw (d :: fired w) (d :: cancelled w) (consumed w) (Cancelled d :: seen w) (held w) (stale w)).
+  Proof.
+    intros Hh. unfold Model.cancel. rewrite Hh.
+    match goal with |- context [resume assign canc coro ?a ?b ?c] => destruct (resume_world a b c) as (_ & E2 & _) end.
+    split; [rewrite E2; reflexivity | reflexivity].
+  Qed.
+
+  (** a Deferred is cancelled at most once *)
+  Lemma run_cancel_nodup pre hold0 g sched : NoDup (cancelled (snd (run assign canc coro pre hold0 g sched))).
+  Proof.
+    unfold run.
+    assert (H : WF (start assign canc coro pre hold0 g) /\ NoDup (cancelled (snd (start assign canc coro pre hold0 g)))).
+    { split; [apply start_WF|]. unfold start.
+      destruct (drive_world g (mkw pre [] [] [] hold0 false)) as (_ & E2 & _). rewrite E2. constructor. }
+    revert H. generalize (start assign canc coro pre hold0 g) as p. induction sched as [|o r IH]; intros p [HW Hn]; [exact Hn|].
+    cbn [fold_left]. apply IH. split; [apply step_WF, HW|].
+    destruct p as [st w]. destruct HW as (W1 & W2 & W3). cbn [fst snd] in *. destruct o as [d| |d]; cbn [Model.step].
+    - unfold Model.fire. destruct (mem d (fired w)); [exact Hn|]. destruct st as [r0|d' k]; [exact Hn|].
+      destruct (Nat.eqb d d'); [|exact Hn].
+      match goal with |- context [resume assign canc coro ?a ?b ?c] => destruct (resume_world a b c) as (_ & E2 & _) end.
+      rewrite E2. exact Hn.
+    - unfold Model.cancel. destruct st as [r0|d k]; [exact Hn|]. destruct (mem d (held w)); [exact Hn|].
+      match goal with |- context [resume assign canc coro ?a ?b ?c] => destruct (resume_world a b c) as (_ & E2 & _) end.
+      rewrite E2. cbn. constructor; [|exact Hn]. intros Hin. apply W3, W1, Hin.
+    - unfold Model.hold. destruct (mem d (fired w)); exact Hn.
   Qed.
 
   (** ---- [c]: the Deferreds that are fired by their canceller in this execution ---- *)
@@ -72,12 +205,6 @@ Section Proofs.
   (** the world agrees with [c] about the Deferreds that have fired: they are in [c] iff they were cancelled *)
   Definition agrees (w : world) : Prop :=
     (forall d, In d (cancelled w) -> In d c) /\ (forall d, In d c -> In d (fired w) -> In d (cancelled w)).
-
-  Definition sync_of (p : status * world) : outcome * list nat * list obs :=
-    match fst p with
-    | Finished r => (r, consumed (snd p), own (seen (snd p)))
-    | Suspended d k => sync out (GYieldD d k) (consumed (snd p)) (own (seen (snd p)))
-    end.
 
   Lemma eff_agrees w d : agrees w -> In d (fired w) -> eff assign canc (cancelled w) d = out d.
   Proof.
@@ -90,18 +217,57 @@ Section Proofs.
   Lemma agrees_same w w' : fired w' = fired w -> cancelled w' = cancelled w -> agrees w -> agrees w'.
   Proof. unfold agrees. intros -> ->. auto. Qed.
 
+  (** backwards through one step, for the sets the agreement talks about *)
+  Lemma agrees_back_fire d w :
+    ~ In d (fired w) -> (forall x, In x (cancelled w) -> In x (fired w)) ->
+    agrees (mkw (d :: fired w) (cancelled w) (consumed w) (seen w) (held w) (stale w)) -> agrees w /\ ~ In d c.
+  Proof.
+    intros Ef W1 (A1 & A2). cbn in *. split; [split; [exact A1|]|].
+    - intros x Hx Hf. apply A2; [exact Hx | right; exact Hf].
+    - intros Hc. apply Ef, W1, A2; [exact Hc | left; reflexivity].
+  Qed.
+
+  Lemma agrees_back_cancel d w x0 :
+    ~ In d (fired w) ->
+    agrees (mkw (d :: fired w) (d :: cancelled w) (consumed w) x0 (held w) (stale w)) -> agrees w /\ In d c.
+  Proof.
+    intros Ef (A1 & A2). cbn in *. split; [split|].
+    - intros x Hx. apply A1. right. exact Hx.
+    - intros x Hx Hf. destruct (A2 x Hx (or_intror Hf)) as [<-|H]; [contradiction | exact H].
+    - apply A1. left. reflexivity.
+  Qed.
+End Common.
+
+(** ================= generators ([yield d]) ================= *)
+Section Generator.
+  Variable assign : nat -> outcome.
+  Variable canc : nat -> cbeh.
+  Notation drive := (drive assign canc false).
+  Notation step := (step assign canc false).
+  Variable c : list nat.
+  Notation out := (eff assign canc c).
+  Notation agrees := (agrees c).
+
+  (** the synchronous continuation of a (possibly suspended) execution *)
+  Definition sync_of (p : status * world) : outcome * list nat * list obs :=
+    match fst p with
+    | Finished r => (r, consumed (snd p), own (seen (snd p)))
+    | Suspended d k => sync out (GYieldD d k) (consumed (snd p)) (own (seen (snd p)))
+    end.
+
   Lemma drive_sync g : forall w, agrees w -> sync_of (drive g w) = sync out g (consumed w) (own (seen w)).
   Proof.
     induction g as [v|e|d k IH|v k IH|t g IHg|g IHg k IH|lvl g IHg]; intros w Ha; cbn [Model.drive Model.sync].
     - reflexivity.
     - reflexivity.
     - destruct (mem d (fired w)) eqn:Ef.
-      + rewrite IH by exact Ha. apply mem_In in Ef. unfold current. rewrite (eff_agrees w d Ha Ef). reflexivity.
+      + unfold after_read. rewrite IH by exact Ha. apply mem_In in Ef. unfold current.
+        rewrite (eff_agrees assign canc c w d Ha Ef). reflexivity.
       + reflexivity.
     - apply IH. exact Ha.
     - rewrite IHg by exact Ha. reflexivity.
-    - specialize (IHg w Ha). destruct (drive_world g w) as (A1 & A2 & _).
-      destruct (Model.drive assign canc g w) as [st w1]. cbn [fst snd] in *.
+    - specialize (IHg w Ha). destruct (drive_world assign canc false g w) as (A1 & A2 & _).
+      destruct (Model.drive assign canc false g w) as [st w1]. cbn [fst snd] in *.
       assert (Ha1 : agrees w1) by (eapply agrees_same; eassumption).
       rewrite <- IHg. destruct st as [r|d k'].
       + unfold sync_of at 2. cbn [fst snd]. apply IH. exact Ha1.
@@ -113,152 +279,172 @@ Section Proofs.
       synchronous continuation is the same *)
   Lemma step_back p o : WF p -> agrees (snd (step p o)) -> agrees (snd p) /\ sync_of (step p o) = sync_of p.
   Proof.
-    destruct p as [st w]. intros [W1 W2]. cbn [fst snd] in *. destruct o as [d| |d]; cbn [Model.step].
-    - (* a Deferred fires *)
-      unfold Model.fire. destruct (mem d (fired w)) eqn:Ef; [auto|]. apply mem_false in Ef.
-      set (w1 := mkw (d :: fired w) (cancelled w) (consumed w) (seen w) (held w)).
-      assert (Hback : agrees w1 -> agrees w /\ ~ In d c).
-      { intros (A1 & A2). cbn in *. split; [split; [exact A1|]|].
-        - intros x Hx Hf. apply A2; [exact Hx | right; exact Hf].
-        - intros Hc. apply Ef, W1, A2; [exact Hc | left; reflexivity]. }
+    destruct p as [st w]. intros (W1 & _ & W3). cbn [fst snd] in *. destruct o as [d| |d]; cbn [Model.step].
+    - unfold Model.fire. destruct (mem d (fired w)) eqn:Ef; [auto|]. apply mem_false in Ef.
+      set (w1 := mkw (d :: fired w) (cancelled w) (consumed w) (seen w) (held w) (stale w)).
       destruct st as [r|d' k].
-      + cbn [snd]. intros Ha. destruct (Hback Ha) as [H _]. split; [exact H | reflexivity].
+      + cbn [snd]. intros Ha. destruct (agrees_back_fire assign canc c d w Ef W1 Ha) as [H _]. split; [exact H | reflexivity].
       + destruct (Nat.eqb_spec d d') as [->|Hne].
-        * destruct (drive_world (k (current assign canc w1 d')) (consume d' w1)) as (E1 & E2 & _).
+        * unfold resume.
+          destruct (drive_world assign canc false (k (current assign canc w1 d')) (consume d' w1)) as (E1 & E2 & _).
           intros (A1 & A2). rewrite E1, E2 in *.
-          assert (Ha1 : agrees w1) by (split; assumption). destruct (Hback Ha1) as [Ha Hnc].
+          assert (Ha1 : agrees w1) by (split; assumption).
+          destruct (agrees_back_fire assign canc c d' w Ef W1 Ha1) as [Ha Hnc].
           split; [exact Ha|]. rewrite drive_sync by exact Ha1.
           unfold sync_of. cbn [fst snd Model.sync consume consumed seen w1].
           unfold current, eff. cbn [consumed cancelled w1].
           assert (Hn1 : mem d' (cancelled w) = false) by (apply mem_false; intros H; apply Ef, W1, H).
           assert (Hn2 : mem d' c = false) by (apply mem_false; exact Hnc).
           rewrite Hn1, Hn2. reflexivity.
-        * cbn [snd]. intros Ha. destruct (Hback Ha) as [H _]. split; [exact H | reflexivity].
-    - (* the returned Deferred is cancelled *)
-      unfold Model.cancel. destruct st as [r|d k]; [auto|]. destruct (mem d (held w)); [auto|].
-      set (w1 := mkw (d :: fired w) (d :: cancelled w) (consumed w) (Cancelled d :: seen w) (held w)).
-      destruct (drive_world (k (current assign canc w1 d)) (consume d w1)) as (E1 & E2 & _).
+        * cbn [snd]. intros Ha. destruct (agrees_back_fire assign canc c d w Ef W1 Ha) as [H _]. split; [exact H | reflexivity].
+    - unfold Model.cancel. destruct st as [r|d k]; [auto|]. destruct (mem d (held w)); [auto|].
+      set (w1 := mkw (d :: fired w) (d :: cancelled w) (consumed w) (Cancelled d :: seen w) (held w) (stale w)).
+      unfold resume.
+      destruct (drive_world assign canc false (k (current assign canc w1 d)) (consume d w1)) as (E1 & E2 & _).
       intros (A1 & A2). rewrite E1, E2 in *. cbn [fired cancelled consume w1] in *.
       assert (Ha1 : agrees w1) by (split; assumption).
-      assert (Hc : In d c) by (apply A1; left; reflexivity).
-      split.
-      + split.
-        * intros x Hx. apply A1. right. exact Hx.
-        * intros x Hx Hf. destruct (A2 x Hx (or_intror Hf)) as [<-|H]; [contradiction | exact H].
-      + rewrite drive_sync by exact Ha1. unfold sync_of. cbn [fst snd Model.sync consume consumed seen w1].
-        rewrite own_cons. cbn [push]. unfold current, eff. cbn [consumed cancelled w1].
-        assert (H1 : mem d (d :: cancelled w) = true) by (apply mem_In; left; reflexivity).
-        assert (H2 : mem d c = true) by (apply mem_In; exact Hc).
-        rewrite H1, H2. reflexivity.
-    - (* a Deferred is fired while paused: nothing is delivered *)
-      unfold Model.hold. destruct (mem d (fired w)); auto.
+      destruct (agrees_back_cancel assign canc c d w _ W3 Ha1) as [Ha Hc].
+      split; [exact Ha|].
+      rewrite drive_sync by exact Ha1. unfold sync_of. cbn [fst snd Model.sync consume consumed seen w1].
+      rewrite own_cons. cbn [push]. unfold current, eff. cbn [consumed cancelled w1].
+      assert (H1 : mem d (d :: cancelled w) = true) by (apply mem_In; left; reflexivity).
+      assert (H2 : mem d c = true) by (apply mem_In; exact Hc).
+      rewrite H1, H2. reflexivity.
+    - unfold Model.hold. destruct (mem d (fired w)); auto.
   Qed.
 
   Lemma run_back ops : forall p, WF p -> agrees (snd (fold_left step ops p)) ->
     agrees (snd p) /\ sync_of (fold_left step ops p) = sync_of p.
   Proof.
     induction ops as [|o r IH]; intros p HW Ha; [auto|]. cbn [fold_left] in *.
-    destruct (IH (step p o) (step_WF p o HW) Ha) as [Ha1 Hs].
+    destruct (IH (step p o) (step_WF assign canc false p o HW) Ha) as [Ha1 Hs].
     destruct (step_back p o HW Ha1) as [Ha0 Hs0]. split; [exact Ha0 | congruence].
   Qed.
 
-  Lemma run_sync pre hold0 g sched : agrees (snd (run assign canc pre hold0 g sched)) ->
-    sync_of (run assign canc pre hold0 g sched) = sync out g [] [].
+  Lemma run_sync pre hold0 g sched : agrees (snd (run assign canc false pre hold0 g sched)) ->
+    sync_of (run assign canc false pre hold0 g sched) = sync out g [] [].
   Proof.
     intros Ha. unfold run in *.
-    assert (HW : WF (start assign canc pre hold0 g)) by (apply drive_WF; intros d []).
-    destruct (run_back sched _ HW Ha) as [Ha0 Hs]. rewrite Hs. unfold start in *.
-    destruct (drive_world g (mkw pre [] [] [] hold0)) as (E1 & E2 & _).
-    rewrite drive_sync; [reflexivity|]. unfold agrees in *. rewrite E1, E2 in Ha0. exact Ha0.
+    destruct (run_back sched _ (start_WF assign canc false pre hold0 g) Ha) as [Ha0 Hs]. rewrite Hs. unfold start in *.
+    destruct (drive_world assign canc false g (mkw pre [] [] [] hold0 false)) as (E1 & E2 & _).
+    rewrite drive_sync; [reflexivity|]. unfold Model.agrees in *. rewrite E1, E2 in Ha0. exact Ha0.
   Qed.
-End Proofs.
+End Generator.
+
+(** ================= coroutines ([await d]) ================= *)
+Section Coroutine.
+  Variable assign : nat -> outcome.
+  Variable canc : nat -> cbeh.
+  Notation drive := (drive assign canc true).
+  Notation step := (step assign canc true).
+  Variable c : list nat.
+  Notation out := (eff assign canc c).
+  Notation agrees := (agrees c).
+
+  Definition sync_of_nc (p : status * world) : outcome * list obs :=
+    match fst p with
+    | Finished r => (r, own (seen (snd p)))
+    | Suspended d k => sync_nc out (GYieldD d k) (own (seen (snd p)))
+    end.
+
+  (** as long as no await has read a Deferred whose result the driver had already taken *)
+  Lemma drive_sync_nc g : forall w, agrees w -> stale (snd (drive g w)) = false ->
+    sync_of_nc (drive g w) = sync_nc out g (own (seen w)).
+  Proof.
+    induction g as [v|e|d k IH|v k IH|t g IHg|g IHg k IH|lvl g IHg]; intros w Ha Hs; cbn [Model.drive Model.sync_nc] in *.
+    - reflexivity.
+    - reflexivity.
+    - destruct (mem d (fired w)) eqn:Ef; [|reflexivity].
+      unfold after_read in *. assert (Ha' : agrees (note_stale d w)) by exact Ha.
+      destruct (drive_world assign canc true (k (current assign canc w d)) (note_stale d w)) as (_ & _ & _ & _ & M).
+      assert (Hm : mem d (consumed w) = false).
+      { destruct (mem d (consumed w)) eqn:E; [|reflexivity]. rewrite M in Hs; [discriminate|]. cbn. rewrite E. apply orb_true_r. }
+      rewrite IH by assumption. apply mem_In in Ef. unfold current. rewrite Hm.
+      rewrite (eff_agrees assign canc c w d Ha Ef). reflexivity.
+    - apply IH; assumption.
+    - rewrite IHg by assumption. reflexivity.
+    - destruct (drive_world assign canc true g w) as (A1 & A2 & _).
+      destruct (Model.drive assign canc true g w) as [st w1] eqn:Eg. cbn [fst snd] in *.
+      assert (Ha1 : agrees w1) by (eapply agrees_same; eassumption).
+      destruct st as [r|d k'].
+      + destruct (drive_world assign canc true (k r) w1) as (_ & _ & _ & _ & M).
+        assert (Hs1 : stale w1 = false) by (destruct (stale w1) eqn:E; [rewrite M in Hs; [discriminate | reflexivity] | reflexivity]).
+        specialize (IHg w Ha). rewrite Eg in IHg. cbn [snd] in IHg. specialize (IHg Hs1).
+        rewrite <- IHg. unfold sync_of_nc at 2. cbn [fst snd]. apply IH; assumption.
+      + cbn [snd] in Hs. specialize (IHg w Ha). rewrite Eg in IHg. cbn [snd] in IHg. specialize (IHg Hs).
+        rewrite <- IHg. unfold sync_of_nc. cbn [fst snd Model.sync_nc]. reflexivity.
+    - rewrite IHg by assumption. reflexivity.
+  Qed.
+
+  Lemma stale_resume d k w1 : stale (snd (resume assign canc true d k w1)) = false ->
+    stale w1 = false /\ stale (snd (drive (k (current assign canc w1 d)) w1)) = false.
+  Proof.
+    unfold resume, settle. cbn [snd consume stale]. intros H. split; [|exact H].
+    destruct (drive_world assign canc true (k (current assign canc w1 d)) w1) as (_ & _ & _ & _ & M).
+    destruct (stale w1); [rewrite M in H; [discriminate | reflexivity] | reflexivity].
+  Qed.
+
+  Lemma step_back_nc p o : WF p -> agrees (snd (step p o)) -> stale (snd (step p o)) = false ->
+    agrees (snd p) /\ stale (snd p) = false /\ sync_of_nc (step p o) = sync_of_nc p.
+  Proof.
+    destruct p as [st w]. intros (W1 & W2 & W3). cbn [fst snd] in *. destruct o as [d| |d]; cbn [Model.step].
+    - unfold Model.fire. destruct (mem d (fired w)) eqn:Ef; [auto|]. apply mem_false in Ef.
+      set (w1 := mkw (d :: fired w) (cancelled w) (consumed w) (seen w) (held w) (stale w)).
+      destruct st as [r|d' k].
+      + cbn [snd]. intros Ha Hs. destruct (agrees_back_fire assign canc c d w Ef W1 Ha) as [H _]. auto.
+      + destruct (Nat.eqb_spec d d') as [->|Hne].
+        * intros Ha Hs. destruct (stale_resume d' k w1 Hs) as [Hs1 Hs2].
+          destruct (resume_world assign canc true d' k w1) as (E1 & E2 & _).
+          assert (Ha1 : agrees w1) by (destruct Ha as (A1 & A2); rewrite E1, E2 in *; split; assumption).
+          destruct (agrees_back_fire assign canc c d' w Ef W1 Ha1) as [Ha0 Hnc].
+          split; [exact Ha0|]. split; [exact Hs1|].
+          unfold resume, settle, sync_of_nc. cbn [fst snd consume seen].
+          pose proof (drive_sync_nc (k (current assign canc w1 d')) w1 Ha1 Hs2) as Hd. unfold sync_of_nc in Hd.
+          rewrite Hd. cbn [Model.sync_nc seen w1]. unfold current, eff. cbn [consumed cancelled w1].
+          assert (Hn0 : mem d' (consumed w) = false) by (apply mem_false; intros H; apply Ef, W2, H).
+          assert (Hn1 : mem d' (cancelled w) = false) by (apply mem_false; intros H; apply Ef, W1, H).
+          assert (Hn2 : mem d' c = false) by (apply mem_false; exact Hnc).
+          rewrite Hn0, Hn1, Hn2. reflexivity.
+        * cbn [snd]. intros Ha Hs. destruct (agrees_back_fire assign canc c d w Ef W1 Ha) as [H _]. auto.
+    - unfold Model.cancel. destruct st as [r|d k]; [auto|]. destruct (mem d (held w)); [auto|].
+      set (w1 := mkw (d :: fired w) (d :: cancelled w) (consumed w) (Cancelled d :: seen w) (held w) (stale w)).
+      intros Ha Hs. destruct (stale_resume d k w1 Hs) as [Hs1 Hs2].
+      destruct (resume_world assign canc true d k w1) as (E1 & E2 & _).
+      assert (Ha1 : agrees w1) by (destruct Ha as (A1 & A2); rewrite E1, E2 in *; split; assumption).
+      destruct (agrees_back_cancel assign canc c d w _ W3 Ha1) as [Ha0 Hc].
+      split; [exact Ha0|]. split; [exact Hs1|].
+      unfold resume, settle, sync_of_nc. cbn [fst snd consume seen].
+      pose proof (drive_sync_nc (k (current assign canc w1 d)) w1 Ha1 Hs2) as Hd. unfold sync_of_nc in Hd.
+      rewrite Hd. cbn [Model.sync_nc seen w1]. rewrite own_cons. cbn [push].
+      unfold current, eff. cbn [consumed cancelled w1].
+      assert (Hn0 : mem d (consumed w) = false) by (apply mem_false; intros H; apply W3, W2, H).
+      assert (H1 : mem d (d :: cancelled w) = true) by (apply mem_In; left; reflexivity).
+      assert (H2 : mem d c = true) by (apply mem_In; exact Hc).
+      rewrite Hn0, H1, H2. reflexivity.
+    - unfold Model.hold. destruct (mem d (fired w)); auto.
+  Qed.
+
+  Lemma run_back_nc ops : forall p, WF p -> agrees (snd (fold_left step ops p)) ->
+    stale (snd (fold_left step ops p)) = false ->
+    agrees (snd p) /\ stale (snd p) = false /\ sync_of_nc (fold_left step ops p) = sync_of_nc p.
+  Proof.
+    induction ops as [|o r IH]; intros p HW Ha Hs; [auto|]. cbn [fold_left] in *.
+    destruct (IH (step p o) (step_WF assign canc true p o HW) Ha Hs) as (Ha1 & Hs1 & He).
+    destruct (step_back_nc p o HW Ha1 Hs1) as (Ha0 & Hs0 & He0). repeat split; [exact Ha0 | exact Hs0 | congruence].
+  Qed.
+
+  Lemma run_sync_nc pre hold0 g sched : agrees (snd (run assign canc true pre hold0 g sched)) ->
+    stale (snd (run assign canc true pre hold0 g sched)) = false ->
+    sync_of_nc (run assign canc true pre hold0 g sched) = sync_nc out g [].
+  Proof.
+    intros Ha Hs. unfold run in *.
+    destruct (run_back_nc sched _ (start_WF assign canc true pre hold0 g) Ha Hs) as (Ha0 & Hs0 & He). rewrite He.
+    unfold start in *.
+    destruct (drive_world assign canc true g (mkw pre [] [] [] hold0 false)) as (E1 & E2 & _).
+    rewrite drive_sync_nc; [reflexivity | | exact Hs0]. unfold Model.agrees in *. rewrite E1, E2 in Ha0. exact Ha0.
+  Qed.
+End Coroutine.
 
 (** the final world agrees with its own list of cancelled Deferreds *)
 Lemma agrees_self w : agrees (cancelled w) w.
 Proof. split; auto. Qed.
-
-Section Proofs2.
-  Variable assign : nat -> outcome.
-  Variable canc : nat -> cbeh.
-
-  Lemma run_WF pre hold0 g sched : WF (run assign canc pre hold0 g sched).
-  Proof.
-    unfold run. assert (H : WF (start assign canc pre hold0 g)) by (apply drive_WF; intros d []).
-    revert H. generalize (start assign canc pre hold0 g) as p. induction sched as [|o r IH]; intros p H; [exact H|].
-    cbn [fold_left]. apply IH, step_WF, H.
-  Qed.
-
-  (** everything in the schedule that fires has fired *)
-  Lemma step_fired p o : forall x, In x (fired (snd p)) \/ o = SFire x -> In x (fired (snd (step assign canc p o))).
-  Proof.
-    destruct p as [st w]. intros x Hx. destruct o as [d| |d]; cbn [Model.step snd].
-    - unfold Model.fire. destruct (mem d (fired w)) eqn:E.
-      + destruct Hx as [Hx|[= ->]]; [exact Hx | apply mem_In; exact E].
-      + assert (H1 : In x (d :: fired w)) by (destruct Hx as [Hx|[= ->]]; [right; exact Hx | left; reflexivity]).
-        destruct st as [r|d' k]; [exact H1|]. destruct (Nat.eqb d d'); [|exact H1].
-        match goal with |- context [Model.drive assign canc ?g ?w0] => destruct (drive_world assign canc g w0) as (E1 & _) end.
-        rewrite E1. exact H1.
-    - destruct Hx as [Hx|Hx]; [|discriminate]. unfold Model.cancel. destruct st as [r|d k]; [exact Hx|].
-      destruct (mem d (held w)); [exact Hx|].
-      match goal with |- context [Model.drive assign canc ?g ?w0] => destruct (drive_world assign canc g w0) as (E1 & _) end.
-      rewrite E1. right. exact Hx.
-    - destruct Hx as [Hx|Hx]; [|discriminate]. unfold Model.hold. destruct (mem d (fired w)); exact Hx.
-  Qed.
-
-  Lemma run_fired pre hold0 g sched : forall x, In x pre \/ In (SFire x) sched -> In x (fired (snd (run assign canc pre hold0 g sched))).
-  Proof.
-    unfold run.
-    assert (H : forall x, In x pre -> In x (fired (snd (start assign canc pre hold0 g)))).
-    { intros x Hx. unfold start. destruct (drive_world assign canc g (mkw pre [] [] [] hold0)) as (E1 & _). rewrite E1. exact Hx. }
-    revert H. generalize (start assign canc pre hold0 g) as p. revert pre.
-    induction sched as [|o r IH]; intros pre p Hp x Hx.
-    - destruct Hx as [Hx|[]]. apply Hp, Hx.
-    - cbn [fold_left]. apply (IH (match o with SFire d => d :: pre | _ => pre end)).
-      + intros y Hy. apply step_fired. destruct o as [d| |d]; [destruct Hy as [<-|Hy]; [right; reflexivity | left; apply Hp, Hy] | left; apply Hp, Hy | left; apply Hp, Hy].
-      + destruct Hx as [Hx|[Ho|Hx]].
-        * left. destruct o; [right| |]; exact Hx.
-        * subst o. left. left. reflexivity.
-        * right. exact Hx.
-  Qed.
-
-  (** once finished, nothing changes the outcome or what the function observed *)
-  Lemma step_finished o r w :
-    fst (step assign canc (Finished r, w) o) = Finished r /\
-    own (seen (snd (step assign canc (Finished r, w) o))) = own (seen w) /\
-    cancelled (snd (step assign canc (Finished r, w) o)) = cancelled w /\
-    consumed (snd (step assign canc (Finished r, w) o)) = consumed w.
-  Proof. destruct o as [d| |d]; cbn; [destruct (mem d (fired w))| |destruct (mem d (fired w))]; repeat split; reflexivity. Qed.
-
-  (** cancelling while suspended on d cancels exactly d (and resumes the function with d's outcome) *)
-  Lemma cancel_exactly d k w : mem d (held w) = false ->
-    cancelled (snd (cancel assign canc (Suspended d k, w))) = d :: cancelled w /\
-    cancel assign canc (Suspended d k, w) =
-      drive assign canc (k (if mem d (consumed w) then Val VNone else cancel_outcome (canc d)))
-            (mkw (d :: fired w) (d :: cancelled w) (d :: consumed w) (Cancelled d :: seen w) (held w)).
-  Proof.
-    intros Hh. unfold Model.cancel. rewrite Hh.
-    match goal with |- context [Model.drive assign canc ?g ?w0] => destruct (drive_world assign canc g w0) as (_ & E2 & _) end.
-    split; [rewrite E2; reflexivity|]. unfold current, eff, consume. cbn [consumed cancelled fired seen].
-    assert (H : mem d (d :: cancelled w) = true) by (apply mem_In; left; reflexivity). rewrite H. reflexivity.
-  Qed.
-End Proofs2.
-
-(** a Deferred is cancelled at most once *)
-Lemma run_cancel_nodup assign canc pre hold0 g sched : NoDup (cancelled (snd (run assign canc pre hold0 g sched))).
-Proof.
-  unfold run.
-  assert (H : WF (start assign canc pre hold0 g) /\ NoDup (cancelled (snd (start assign canc pre hold0 g)))).
-  { split; [apply drive_WF; intros d []|]. unfold start.
-    destruct (drive_world assign canc g (mkw pre [] [] [] hold0)) as (_ & E2 & _). rewrite E2. constructor. }
-  revert H. generalize (start assign canc pre hold0 g) as p. induction sched as [|o r IH]; intros p [HW Hn]; [exact Hn|].
-  cbn [fold_left]. apply IH. split; [apply step_WF, HW|].
-  destruct p as [st w]. destruct HW as [W1 W2]. cbn [fst snd] in *. destruct o as [d| |d]; cbn [step].
-  - unfold fire. destruct (mem d (fired w)); [exact Hn|]. destruct st as [r0|d' k]; [exact Hn|].
-    destruct (Nat.eqb d d'); [|exact Hn].
-    match goal with |- context [drive assign canc ?g0 ?w0] => destruct (drive_world assign canc g0 w0) as (_ & E2 & _) end.
-    rewrite E2. exact Hn.
-  - unfold cancel. destruct st as [r0|d k]; [exact Hn|]. destruct (mem d (held w)); [exact Hn|].
-    match goal with |- context [drive assign canc ?g0 ?w0] => destruct (drive_world assign canc g0 w0) as (_ & E2 & _) end.
-    rewrite E2. cbn. constructor; [|exact Hn]. intros Hin. apply W2, W1, Hin.
-  - unfold hold. destruct (mem d (fired w)); exact Hn.
-Qed.
